@@ -175,7 +175,9 @@ package xmpp
 //@   callsite handleInputStream#1
 //@     after: lastErr = ret0
 //@   ensures[C08] lastErr != nil && lastErr != io.EOF ==> err != nil
-// C10: Serve leaves both directions marked closed, whatever made it return
+// C10: Serve leaves both directions marked closed, whatever made it return;
+// its shutdown goes through Close (which takes the output lock before it
+// writes the closing tag), never through closeSession directly
 //@   ensures[C10] outClosed(s.state) && s.state & InputStreamClosed == InputStreamClosed
 
 // ---------------------------------------------------------------------------
@@ -895,3 +897,11 @@ package xmpp
 //@     assert[C02] arg0 == tc.teeReader && arg1 == p && reads == 0
 //@     after: reads = reads + 1
 //@   ensures[C02] reads == 1
+
+// (s is Serve's receiver, which is not nil)
+//@ func (*Session).Serve$1
+//@   requires s != nil
+//@   ghost viaClose bool = false
+//@   callsite (*Session).Close#1
+//@     after: viaClose = true
+//@   ensures[C10] viaClose
